@@ -264,6 +264,15 @@ def damage(text, specs):
             for l in g["lines"]:
                 drop.add(id(l))
                 add_after[id(l)] = _set_xyz(l, x, y, z)
+        elif how == "coincide":
+            # the first side-chain atom beyond CB sits exactly on CB (zero-length bond:
+            # degenerate numerics -- 0/0 in angle and normalisation code)
+            cb = next((l for l, nm in zip(g["lines"], names) if nm == "CB"), None)
+            nxt = next((l for l, nm in zip(g["lines"], names)
+                        if nm not in BACKBONE and nm != "CB"), None)
+            if cb is not None and nxt is not None:
+                drop.add(id(nxt))
+                add_after[id(nxt)] = _set_xyz(nxt, *_xyz(cb))
         elif how == "altloc":
             # two alternate locations for the first side-chain atom (or CA)
             tgt = next((l for l, nm in zip(g["lines"], names) if nm not in BACKBONE), g["lines"][0])
@@ -500,6 +509,36 @@ def sym_waters(text, n):
     return "\n".join(lines[:end] + out + lines[end:] + ["END"]) + "\n"
 
 
+def dup_water(text):
+    """One water listed twice (same coordinates, next residue number): a duplicate record
+    as left behind by merging files; two atoms at distance zero."""
+    lines = [l for l in text.splitlines() if l.strip() != "END"]
+    atoms = [i for i, l in enumerate(lines) if _is_atom(l)]
+    if not atoms:
+        return text
+    wat = next((i for i in atoms if lines[i][17:20].strip() in WATER_NAMES
+                and lines[i][12:16].strip() == "O"), None)
+    try:
+        resno = max(int(lines[i][22:26]) for i in atoms) + 3
+        serial = max(int(lines[i][6:11]) for i in atoms) + 3
+    except ValueError:
+        resno, serial = 950, 9500
+    last = lines[atoms[-1]]
+    if wat is None:
+        xs, ys, zs = zip(*(_xyz(lines[i]) for i in atoms))
+        src = (f"HETATM{serial % 100000:5d}  O   HOH {last[21]}{resno % 10000:4d}    "
+               f"{max(xs) + 4.0:8.3f}{ys[-1]:8.3f}{zs[-1]:8.3f}  1.00 20.00           O")
+        new = [src]
+        serial += 1
+        resno += 1
+    else:
+        src = lines[wat]
+        new = []
+    new.append(f"{src[:6]}{serial % 100000:5d}{src[11:22]}{resno % 10000:4d}{src[26:]}")
+    end = atoms[-1] + 1
+    return "\n".join(lines[:end] + new + lines[end:] + ["END"]) + "\n"
+
+
 def renumber(text, offset):
     """Shift all residue numbers (negative numbers, numbers crossing 9999 -> column overflow
     is avoided by clamping)."""
@@ -591,6 +630,8 @@ def structure_text(cfg):
         text = dimer_same_id(text)
     if cfg.get("sym_waters"):
         text = sym_waters(text, cfg["sym_waters"])
+    if cfg.get("dup_water"):
+        text = dup_water(text)
     if cfg.get("renumber"):
         text = renumber(text, cfg["renumber"])
     if cfg.get("water_name"):
